@@ -7,7 +7,8 @@ Binding: recorder c03 builds instruction words from field templates, lifts each 
          translator (AArch64 / AArch64Eb), runs the lifted IL with the real executor::Driver from a
          logged initial X0..X30/SP/NZCV/V0..V31/data window until control reaches another native
          address; Trace_C03 decodes the raw word itself (spec/A64.tla), executes the Arm ARM
-         pseudocode and compares registers, flags, every window byte and the next pc.
+         pseudocode and compares registers, flags, every window byte, the next pc, and that no page
+         outside the window was written.
 Corpus:  the expectations hard-coded in the repository's own aarch64 tests (corpus/c03) are replayed
          through the specification as an independent sanity check of the transcription.
 """
@@ -34,10 +35,103 @@ def _word(e):
     return "%08x" % int.from_bytes(bytes(e["word"]), "little")
 
 
+# ---------------------------------------------------------------------------------------------
+# decoder cross-check (never an oracle for the code): the class / mnemonic / register width the
+# SPECIFICATION decoded for every judged word is compared with llvm-mc's disassembly of the same
+# word.  A disagreement means A64.tla (or llvm) mis-decodes: that is a tool error to be triaged by
+# hand, never a verdict, and it never suppresses a rejection.  Skipped when llvm-mc is missing.
+# ---------------------------------------------------------------------------------------------
+_ALLOWED = {
+    ("addsub", "ADD"): {"add", "mov"}, ("addsub", "ADDS"): {"adds", "cmn"},
+    ("addsub", "SUB"): {"sub", "neg"}, ("addsub", "SUBS"): {"subs", "cmp", "negs"},
+    ("movewide", "MOVZ"): {"mov", "movz"}, ("movewide", "MOVN"): {"mov", "movn"}, ("movewide", "MOVK"): {"movk"},
+    ("logical", "ORR"): {"orr", "mov"}, ("logical", "AND"): {"and"}, ("logical", "EOR"): {"eor"},
+    ("logical", "ANDS"): {"ands", "tst"}, ("logical", "BIC"): {"bic"}, ("logical", "ORN"): {"orn", "mvn"},
+    ("logical", "EON"): {"eon"}, ("logical", "BICS"): {"bics"},
+    ("simd_three_same", "ADD"): {"add"}, ("simd_three_same", "SUB"): {"sub"}, ("simd_three_same", "ORR"): {"orr", "mov"},
+    ("simd_copy", "INS-element"): {"mov", "ins"}, ("simd_copy", "INS-general"): {"mov", "ins"},
+    ("simd_copy", "UMOV"): {"mov", "umov"}, ("simd_copy", "DUP-scalar"): {"mov", "dup"},
+}
+
+
+def _llvm_family(t):
+    """mnemonics llvm-mc may print for the specification's tags t (None: not covered by the table)"""
+    c, m = t[0], t[1] if len(t) > 1 else ""
+    key = ("addsub" if c.startswith("addsub") else "logical" if c.startswith("logical") else c, m)
+    if key in _ALLOWED:
+        return _ALLOWED[key], None
+    if c in ("branch_imm", "compare_branch", "test_branch", "branch_reg"):
+        return {m.lower()}, None
+    if c == "branch_cond":
+        return {m.lower().replace("b.cs", "b.hs").replace("b.cc", "b.lo")}, None
+    if c == "hint":
+        return {"nop"}, None
+    name = [x for x in t if re.match(r"(LDRS?|STR|LDP|STP|LDPSW|prfm)", x)]
+    nm = name[0] if name else "?"
+    mm = re.match(r"(LDRS|LDR|STR)(-fp)?(\d+)(-to(\d+))?", nm)
+    if mm:
+        kind, fp, ds, _, to = mm.groups()
+        ds = int(ds)
+        suf = "" if fp or ds >= 32 else {8: "b", 16: "h"}[ds]
+        if kind == "LDRS":
+            suf = "s" + {8: "b", 16: "h", 32: "w"}[ds]
+        fam = {x + suf for x in (("str", "stur", "stlr", "stllr", "stlur") if kind == "STR" else
+                                 ("ldr", "ldur", "ldar", "ldlar", "ldapur"))}
+        reg = {8: "b", 16: "h", 32: "s", 64: "d", 128: "q"}[ds] if fp else (
+            ("x" if ds == 64 else "w") if kind == "STR" else ("x" if int(to) == 64 else "w"))
+        return fam, reg
+    if nm.startswith("LDPSW"):
+        return {"ldpsw"}, None
+    if nm.startswith("LDP"):
+        return {"ldp", "ldnp"}, None
+    if nm.startswith("STP"):
+        return {"stp", "stnp"}, None
+    if nm.startswith("prfm"):
+        return {"prfm", "prfum"}, None
+    return None, None
+
+
+def decoder_crosscheck(ctx, judged_words):
+    """judged_words: {word int: tags}"""
+    import shutil
+    import struct
+    import subprocess
+    exe = shutil.which("llvm-mc") or shutil.which("llvm-mc-14")
+    if not exe or not judged_words:
+        ctx.extra["decoder_crosscheck_llvm_mc"] = {"skipped": "llvm-mc not installed" if not exe else "nothing judged"}
+        return
+    words = sorted(judged_words)
+    inp = "".join(" ".join("0x%02x" % b for b in struct.pack("<I", w)) + "\n" for w in words)
+    p = subprocess.run([exe, "--disassemble", "-triple=aarch64", "-mattr=+v8.4a,+lor,+rcpc-immo,+neon", "--show-encoding"],
+                       input=inp, capture_output=True, text=True)
+    dis = {}
+    for l in p.stdout.splitlines():
+        m = re.match(r"\s*(.*?)\s*//\s*encoding: \[(.*)\]", l)
+        if m:
+            dis[int.from_bytes(bytes(int(x, 16) for x in m.group(2).split(",")), "little")] = m.group(1).strip()
+    agree, uncovered, bad = 0, 0, []
+    for w in words:
+        fam, reg = _llvm_family(judged_words[w])
+        d = dis.get(w, "")
+        parts = d.split(None, 1)
+        mn = parts[0] if parts else "?"
+        if fam is None:
+            uncovered += 1
+        elif mn in fam and (reg is None or (len(parts) > 1 and parts[1].strip()[:1] == reg)):
+            agree += 1
+        else:
+            bad.append({"word": "%08x" % w, "spec": judged_words[w], "llvm": d})
+    ctx.extra["decoder_crosscheck_llvm_mc"] = {"distinct_judged_words": len(words), "agree": agree,
+                                              "not_in_table": uncovered, "disagree": len(bad), "examples": bad[:5]}
+    if bad:
+        raise core.ToolError("A64.tla and llvm-mc decode %d judged words differently (triage the decoder): %s" % (len(bad), bad[:3]))
+
+
 def validate(ctx, paths, parallel):
     """Run Trace_C03 over the recorded files; returns per-path TLC results."""
     rs = ctx.tlc_trace_many("Trace_C03", paths, parallel=parallel, timeout=1500, heap="3g")
     judged, unspec, outcomes, gen = {}, {}, {}, {}
+    jwords = ctx.__dict__.setdefault("_c03_judged_words", {})
     claim_ok, claim_bad = 0, []
     for p, r in zip(paths, rs):
         evs = ctx.read_ndjson(p)
@@ -57,6 +151,8 @@ def validate(ctx, paths, parallel):
                 t = _TAGS.findall(line)[1:]
                 k = t[0] + ":" + (t[1] if len(t) > 1 else "")
                 judged[k] = judged.get(k, 0) + 1
+                n0 = int(re.search(r'"JUDGED", (\d+)', line).group(1))
+                jwords[int.from_bytes(bytes(evs[n0 - 1]["word"]), "little")] = t
                 if len(ctx.samples) < 3 and judged[k] == 1 and t[0] in ("addsub_ext", "ldst_pre", "test_branch"):
                     n = int(re.search(r'"JUDGED", (\d+)', line).group(1))
                     e = evs[n - 1]
@@ -87,12 +183,13 @@ def run(ctx):
     mc(ctx)
     q = ctx.quick
     nshard = 4 if q else 24
-    per = 800 if q else 5000
+    per = 800 if q else 8000
     jobs = [("c03", ["--mode", "random", "--n", per], "rand%02d.ndjson" % i,
              {"extra_env": {"VERIF_SEED": str(ctx.seed * 1000 + i)}}) for i in range(nshard)]
     jobs.append(("c03", ["--mode", "corpus", "--in", CORPUS], "corpus.ndjson"))
     paths = ctx.record_many(jobs, parallel=4)
     rs, claim_ok, claim_bad = validate(ctx, paths, parallel=4 if q else 12)
+    decoder_crosscheck(ctx, ctx.__dict__.get("_c03_judged_words", {}))
     # the repository's own expectations, replayed through the specification
     undisputed = [e["cls"] for e in claim_bad if "disputed" not in _corpus_entry(e["cls"])]
     disputed_total = sum(1 for e in _corpus() if "disputed" in e)
@@ -149,7 +246,7 @@ def replay(ctx, path):
 def selftest(ctx):
     """Binding self-test: corrupt one recorded component of instances the specification judged and
     accepted (a register limb, SP, a flag, a window byte, the next pc, a register of the wrong width, a
-    missing post-state, an executor error instead of a result) and expect exactly those to be
+    missing post-state, an executor error instead of a result, a page written far from the window) and expect exactly those to be
     rejected in addition to the rejections of the unmodified trace."""
     ctx.build(["c03"])
     p = ctx.record("c03", ["--mode", "random", "--n", 600], "selftest.ndjson")
@@ -163,7 +260,7 @@ def selftest(ctx):
         ln = i + 1
         if ln not in judged or ln in base or "ok" not in e.get("run", {}) or ln % 3 != 0:
             continue
-        kind = k % 9
+        kind = k % 10
         k += 1
         post = e["post"]
         if kind == 0:
@@ -182,8 +279,10 @@ def selftest(ctx):
             del e["post"]                                         # garbage: no post-state at all
         elif kind == 7:
             e["run"] = {"err": "Sort", "msg": "injected"}
-        else:
+        elif kind == 8:
             e["run"] = {"err": "ExecutorLiftFail", "at": [1, 2, 3, 4, 5, 6, 7, 8]}
+        else:
+            post["pages"] = post["pages"] + [[0, 0, 16, 0, 0, 0, 0, 64]]   # a page written far from the window
         kinds[kind] = kinds.get(kind, 0) + 1
         bad.add(ln)
     qf = p + ".mut"
@@ -194,4 +293,4 @@ def selftest(ctx):
     got = {rj["line"] for rj in r1.rejects}
     core.log("selftest: judged %d, baseline rejections %d, corrupted %d (kinds %s), unexpected %s, missed %s" % (
         len(judged), len(base), len(bad), kinds, sorted(got - bad - base)[:5], sorted((bad | base) - got)[:5]))
-    return len(bad) >= 40 and len(kinds) == 9 and got == (bad | base)
+    return len(bad) >= 40 and len(kinds) == 10 and got == (bad | base)
